@@ -302,19 +302,20 @@ func checkC05(r *core.Run) {
 	pending := constVal(r, "order/types", "OrderPending")
 	completed := constVal(r, "order/types", "OrderCompleted")
 	nSites := 0
-	for _, f := range r.P.SortedFuncs(r.ConsensusFuncs()) {
-		calls := callsIn(r, f, co)
-		if len(calls) == 0 {
-			continue
-		}
-		res := r.Resolver(f)
-		ck := &guard.Checker{P: r.P, Fn: f, Res: res}
-		for i, c := range calls {
+	perAnchor := map[*ssa.Function]int{}
+	// call sites in helpers outside the vocabulary are judged in the vocabulary of the known function they belong to
+	anchorFrames(r, func(f *ssa.Function, fr frame) {
+		for _, c := range callsIn(r, fr.Fn, co) {
 			nSites++
-			key := core.Key("T-cancel-pre", r.KeyName(f), fmt.Sprintf("CancelOrder#%d", i+1))
+			perAnchor[f]++
+			key := core.Key("T-cancel-pre", r.P.Name(f), fmt.Sprintf("CancelOrder#%d", perAnchor[f]))
+			site := effSite{Ins: c, Chain: fr.Chain}
 			ordStatus := "*" + fGetOrder + "(*)#0.Status"
-			isPending, _ := ck.MustPass(c.Block(), []guard.Atom{guard.Eq(ordStatus, pending)})
-			shardsGone := allShardsRemovedBefore(r, f, c)
+			isPending, _ := mustPassDeep(r, f, site, []guard.Atom{guard.Eq(ordStatus, pending)})
+			shardsGone := allShardsRemovedBefore(r, fr.Fn, c)
+			for lvl := len(fr.Chain) - 1; lvl >= 0 && !shardsGone; lvl-- {
+				shardsGone = allShardsRemovedBefore(r, fr.Fns(f)[lvl], fr.Chain[lvl])
+			}
 			if isPending || shardsGone {
 				why := "all shards of the order are removed first (for-all RemoveShard over order.Shards)"
 				if isPending {
@@ -324,13 +325,13 @@ func checkC05(r *core.Run) {
 			} else {
 				r.Violate("T-cancel-pre", key+"|shards gone first", r.P.Pos(c.Pos()), "the order is cancelled (and removed) while its shards may still exist: shards without an order stay assigned to providers forever")
 			}
-			if ok, w := ck.MustPass(c.Block(), []guard.Atom{guard.Ne(ordStatus, completed), guard.Eq(ordStatus, pending)}); ok {
+			if ok, w := mustPassDeep(r, f, site, []guard.Atom{guard.Ne(ordStatus, completed), guard.Eq(ordStatus, pending)}); ok {
 				r.Discharge("G-refund-state", key+"|not completed", r.P.Pos(c.Pos()), "a full refund is issued only while the order is not Completed")
 			} else {
 				r.Violate("G-refund-state", key+"|not completed", r.P.Pos(c.Pos()), "CancelOrder (full refund) can be reached for an order that is already Completed: the payer is refunded in full although providers have been paid/are earning", w...)
 			}
 		}
-	}
+	})
 	r.Floor("cancelorder_call_sites", nSites, 3)
 
 	// ---- CAP-reserve
